@@ -400,7 +400,7 @@ package httpgrpc
 //@   assert_call[C13] internal.ApplyPerRPCCreds : credentials_checked_against_the_url_scheme: arg0 == ctx$entry && arg1 == lastresult("internal.GetCallOptions") && arg2 == lastresult("(*url.URL).String") && (arg3 <==> reqUrl.Scheme == "https") && reqUrl.Scheme == old(ch.BaseURL.Scheme)
 //@   ensures[C13] credential_failure_sends_nothing: called("internal.ApplyPerRPCCreds") && lastresult("internal.ApplyPerRPCCreds", 1) != nil ==> result == lastresult("internal.ApplyPerRPCCreds", 1) && !called("http.RoundTripper.RoundTrip") && !called("go")
 //@   assert_call[C13,C03,C09] headersFromContext : from_the_credentialed_context: arg0 == lastresult("internal.ApplyPerRPCCreds", 0)
-//@   assert_call[C12] (*url.URL).String : the_method_name_is_appended_to_the_base_path_verbatim: reqUrl.Path == trim_suffix(path_join2("/", old(ch.BaseURL.Path)), "/") + "/" + trim_prefix(methodName$entry, "/")
+//@   assert_call[C12] (*url.URL).String : the_method_name_is_appended_to_the_base_path_verbatim: arg0.Path == trim_suffix(path_join2("/", old(ch.BaseURL.Path)), "/") + "/" + trim_prefix(methodName$entry, "/")
 //@   assert_call[C12,C01] http.NewRequest : post_to_the_joined_url: arg0 == "POST" && arg1 == lastresult("(*url.URL).String")
 //@   assert_call[C01] encoding.Codec.Marshal : the_request_message: arg1 == req
 //@   assert_call[C04,C13] http.RoundTripper.RoundTrip : through_the_configured_transport: arg0 == ch.Transport
@@ -433,7 +433,7 @@ package httpgrpc
 //@   ensures[C13] credential_failure_sends_nothing: called("internal.ApplyPerRPCCreds") && lastresult("internal.ApplyPerRPCCreds", 1) != nil ==> result1 == lastresult("internal.ApplyPerRPCCreds", 1) && result0 == nil && !called("go") && !called("context.WithCancel")
 //@   assert_call[C04] context.WithCancel : child_of_the_credentialed_context: arg0 == lastresult("internal.ApplyPerRPCCreds", 0)
 //@   assert_call[C13,C03,C09] headersFromContext : from_the_call_context: arg0 == lastresult("context.WithCancel", 0)
-//@   assert_call[C12] (*url.URL).String : the_method_name_is_appended_to_the_base_path_verbatim: reqUrl.Path == trim_suffix(path_join2("/", old(ch.BaseURL.Path)), "/") + "/" + trim_prefix(methodName$entry, "/")
+//@   assert_call[C12] (*url.URL).String : the_method_name_is_appended_to_the_base_path_verbatim: arg0.Path == trim_suffix(path_join2("/", old(ch.BaseURL.Path)), "/") + "/" + trim_prefix(methodName$entry, "/")
 //@   assert_call[C12,C01] http.NewRequest : post_to_the_joined_url: arg0 == "POST" && arg1 == lastresult("(*url.URL).String")
 //@   ensures[C05] request_error_cancels_and_spawns_nothing: called("http.NewRequest") && lastresult("http.NewRequest", 1) != nil ==> calls("context.CancelFunc") == 1 && !called("go") && result0 == nil && result1 == lastresult("http.NewRequest", 1)
 //@   assert_call[C05,C04,C13] newClientStream : stream_owns_the_call_context_and_options: arg0 == lastresult("context.WithCancel", 0) && arg1 == lastresult("context.WithCancel", 1) && arg2 == boxed(lastresult("io.Pipe", 1)) && arg3 == desc.ServerStreams && arg4 == lastresult("internal.GetCallOptions") && arg5 == ch.BaseURL
